@@ -259,6 +259,26 @@ Theorem C06_min_by : forall A (key : A -> Z) (xs : list A) t,
 Proof. exact @min_by_spec. Qed.
 Print Assumptions C06_min_by.
 
+(* max / min over integers (as the code builds them: max_by(identity) ; map(first)) *)
+Theorem C06_max : forall (xs : list Z) t,
+  untag (exec (op_max (pure2 Z.sub)) (events xs t))
+  = match t with
+    | TDone => match xs with [] => [Err EXN_NO_ELEMENTS] | x :: r => [Next (fold_left Z.max r x); Done] end
+    | TErr e => [Err e]
+    | TNever => []
+    end.
+Proof. exact max_spec. Qed.
+Print Assumptions C06_max.
+Theorem C06_min : forall (xs : list Z) t,
+  untag (exec (op_min (pure2 Z.sub)) (events xs t))
+  = match t with
+    | TDone => match xs with [] => [Err EXN_NO_ELEMENTS] | x :: r => [Next (fold_left Z.min r x); Done] end
+    | TErr e => [Err e]
+    | TNever => []
+    end.
+Proof. exact min_spec. Qed.
+Print Assumptions C06_min.
+
 Example C06_witness_max_by :
   untag (exec (op_max_by (pure (fun x : Z => x mod 3)) (pure2 Z.sub)) (events [1; 5; 3; 2; 8] TDone))
   = [Next [5; 2; 8]; Done].
